@@ -133,6 +133,7 @@ theorem runBody_li (U : Universe) {s : St} (L : LI s) (P : PcLog s) {g : Gen} (h
       split
       · exact push_li L1 _ rfl
       · exact L1.of_inert (.returned g _) rfl rfl (fun _ h => h)
+      · exact L1.of_inert (.crashed g _) rfl rfl (fun _ h => h)
 
 theorem afterBody_li {b : St × Next} (L : LI b.1) (g : Gen) (p : Nat) (hg : b.1.gens g ≠ none) :
     LI (afterBody b g p) := by
@@ -153,8 +154,9 @@ theorem afterBody_li {b : St × Next} (L : LI b.1) (g : Gen) (p : Nat) (hg : b.1
         · exact .inr (by simpa [pauseHead] using hd)
       · simpa [pauseHead, hx] using hd
     · exact L.of_same rfl (fun _ hd => hd)
+  · exact L
 
-theorem turn_li (U : Universe) {c : St} (I : Inv c) {g : Gen} {pend : List Gen}
+theorem turn_li (U : Universe) [NoRaise U] {c : St} (I : Inv c) {g : Gen} {pend : List Gen}
     {done : List (Option Gen)} (h : Split c (g :: pend) done) (L : LI c) (P : PcLog c) :
     LI (turn U c) := by
   obtain ⟨_, hc⟩ := turn_cases U I h
@@ -170,7 +172,7 @@ theorem turn_li (U : Universe) {c : St} (I : Inv c) {g : Gen} {pend : List Gen}
     have hnd : ¬ Dead g c := by unfold Dead; simp [hgc, hk]
     exact afterBody_li (runBody_li U L P hnd) g p (by simp [hg])
 
-theorem process_li (U : Universe) {s : St} (T : Top s) (dt : Int) (hint : List Gen) (L : LI s)
+theorem process_li (U : Universe) [NoRaise U] {s : St} (T : Top s) (dt : Int) (hint : List Gen) (L : LI s)
     (P : PcLog s) : LI (process U s dt hint).1 := by
   obtain ⟨pend, _, I1, hsp, hp⟩ := process_frame U T dt hint
   obtain ⟨w1, _, wlog, _⟩ := wake_frame T.inv dt hint
@@ -188,7 +190,7 @@ theorem process_li (U : Universe) {s : St} (T : Top s) (dt : Int) (hint : List G
   rw [hp]
   exact (this ⟨L0, P0⟩).1
 
-theorem execOp_li (U : Universe) {s : St} (T : Top s) (op : Op) (L : LI s) (P : PcLog s) :
+theorem execOp_li (U : Universe) [NoRaise U] {s : St} (T : Top s) (op : Op) (L : LI s) (P : PcLog s) :
     LI (execOp U s op) := by
   cases op with
   | start h => exact push_li (start_li U L h) _ rfl
@@ -197,7 +199,7 @@ theorem execOp_li (U : Universe) {s : St} (T : Top s) (op : Op) (L : LI s) (P : 
   | value h => exact push_li L _ rfl
   | process dt hint => exact push_li (process_li U T dt hint L P) _ rfl
 
-theorem run_li (U : Universe) {s : St} (T : Top s) (ops : List Op) (L : LI s) (P : PcLog s) :
+theorem run_li (U : Universe) [NoRaise U] {s : St} (T : Top s) (ops : List Op) (L : LI s) (P : PcLog s) :
     LI (run U s ops) := by
   induction ops generalizing s with
   | nil => exact L
